@@ -172,23 +172,22 @@ func c16Check(c C16Case, rec *evid.Rec) error {
 			}
 		}
 		for _, nb := range want.NewBlocks {
-			k := graph.CidOf(nb)
-			b, ok := wstore.Bag[k]
-			if !ok {
-				b, ok = real.Mem.Bag[k]
-			}
-			if !ok {
-				// a block that was reached through a link carrying it is stored again under such a link
-				k = graph.IdCidOf(nb)
-				if b, ok = wstore.Bag[k]; !ok {
-					b, ok = real.Mem.Bag[k]
-				}
-			}
+			// under its sha2-256 link, or — a block that was reached through a link carrying it — under such a link
+			// again (which of the two the parent holds is part of the comparison of the result above)
 			enc, _ := refcbor.Encode(nb)
-			if !ok || !bytes.Equal(b, enc) {
+			found := false
+			for _, k := range []string{graph.CidOf(nb), graph.IdCidOf(nb)} {
+				if b, ok := wstore.Bag[k]; ok && bytes.Equal(b, enc) {
+					found = true
+				}
+				if b, ok := real.Mem.Bag[k]; ok && bytes.Equal(b, enc) {
+					found = true
+				}
+				store[k] = nb.SortKeys(val.LessLenFirst)
+			}
+			if !found {
 				return fmt.Errorf("%s: updated block %s was not stored under its new link", where, nb.Short(100))
 			}
-			store[k] = nb.SortKeys(val.LessLenFirst)
 		}
 		for k := range wstore.Bag {
 			if _, ok := store[k]; !ok {
